@@ -120,10 +120,18 @@ def run_property(prop, tier, seed, rebaseline=False, only_unit=None):
         for f in futs:
             results.append(f.result())
     baseline = load_json(BASELINE_PATH, {})
+    def short_counts(obls):
+        # Verus names trait-impl methods `impl&%N::f` with N depending on the order of impls in the composed file; the baseline
+        # is therefore keyed by the method's own name with a multiplicity, which survives reordering / additions in /verif
+        c = {}
+        for o in obls:
+            k = re.sub(r"impl&%\d+::", "impl::", o["fn"])
+            c[k] = c.get(k, 0) + 1
+        return c
     if rebaseline:
         for u in results:
             if u.meta.get("static") and u.status == "ok":
-                baseline[u.name] = sorted(o["fn"] for o in u.obligations if o["ok"])
+                baseline[u.name] = short_counts([o for o in u.obligations if o["ok"]])
         os.makedirs(os.path.dirname(BASELINE_PATH), exist_ok=True)
         json.dump(baseline, open(BASELINE_PATH, "w"), indent=1, sort_keys=True)
     known = known_entries(prop)
@@ -162,9 +170,11 @@ def run_property(prop, tier, seed, rebaseline=False, only_unit=None):
                                 "discharged": o["ok"],
                                 "rewrites": rew[short]["log"] if short in rew and o["extracted"] else []})
         if u.meta.get("static") and not u.meta.get("kani"):
-            base = set(baseline.get(u.name, []))
-            have = {o["fn"] for o in u.obligations}
-            gone = sorted(base - have)
+            base = baseline.get(u.name, {})
+            if isinstance(base, list):      # older baseline format
+                base = short_counts([{"fn": x} for x in base])
+            have = short_counts(u.obligations)
+            gone = sorted(k for k, n in base.items() if have.get(k, 0) < n)
             if gone and u.status != "undecided" and not any(not o["ok"] for o in u.obligations):
                 undecided.append((u.name, f"baseline obligations no longer generated: {gone}"))
                 continue
@@ -201,8 +211,9 @@ def run_property(prop, tier, seed, rebaseline=False, only_unit=None):
                 known_hits.append((hit, u.name, f))
             else:
                 if u.meta.get("static") and not u.meta.get("kani") and baseline.get(u.name) is not None:
-                    full = next((o["fn"] for o in u.obligations if o["fn"].split("::")[-1] == f["fn"]), f["fn"])
-                    if full not in baseline.get(u.name, []):
+                    b = baseline.get(u.name, {})
+                    names = {re.sub(r"impl&%\d+::", "impl::", x).split("::")[-1] for x in (b if isinstance(b, list) else b.keys())}
+                    if f["fn"] not in names:
                         undecided.append((u.name, f"{f['fn']} fails but is not in the committed baseline (framework drift)"))
                         continue
                 new.append(f)
